@@ -126,8 +126,8 @@ public:
      */
     promise remove(ident id) {
         std::lock_guard _(_mx);
-        if (_scheduled.empty()) return {};
-        while (_scheduled[0]._ident == id) {
+        //(removing of items below can make the container empty)
+        while (!_scheduled.empty() && _scheduled[0]._ident == id) {
             auto p = std::move(_scheduled[0]._p);
             pop_item();
             if (p) return p;
